@@ -12,4 +12,4 @@ def run(ctx):
         "JSON-equal (DESIGN 6.0): numbers by value, key order irrelevant; the only tolerated difference is an optional property given as "
         "explicit null being omitted (Semantics!Norm applied to both sides)",
         "only documents using declared properties and accepted by the reference validator of the source format are judged",
-    ])
+    ], must=("optional-collections",))
